@@ -10,23 +10,24 @@ TRUSTED_BASE = [
     "translator harness/extract.go for Generated/*.v (FSM tables by exhaustive enumeration of the real fsm objects, constants via go/ast)",
 ]
 
-# kind numbers are engine specific
-ENGINES = {
-    "ring": dict(
-        n=dict(quick=300, thorough=4000), shards=dict(quick=1, thorough=4),
-        kinds={
-            1: dict(cls="corr", props=["C20"], what="ring/store/stream model and implementation disagree"),
-            2: dict(cls="oracle", props=["C20"], what="history result differs from the gap-free range specification"),
-            3: dict(cls="known", props=["C20"], finding="C20-stream-window", what="stream known window"),
-        },
-        sections=[("ring", 0), ("store", 100000), ("stream", 200000)],
-    ),
-}
+import glob
+import importlib.util
+import os
 
-PROPS = {
-    "C20": dict(engines=["ring"], props_file="Props/C20.v", checker_vo="Oracles/RingCheck.vo", level="proof",
-                assumptions=["event ids stay below 2^64", "ring capacities and resize targets are positive (the event system substitutes the default for 0)"]),
-}
+ENGINES = {}
+PROPS = {}
+for _f in sorted(glob.glob(os.path.join(os.path.dirname(os.path.abspath(__file__)), "engines", "*.py"))):
+    _spec = importlib.util.spec_from_file_location("eng_" + os.path.basename(_f)[:-3], _f)
+    _m = importlib.util.module_from_spec(_spec)
+    _spec.loader.exec_module(_m)
+    ENGINES.update(getattr(_m, "ENGINES", {}))
+    for _k, _v in getattr(_m, "PROPS", {}).items():
+        if _k in PROPS:
+            # several engine files may contribute to one property: merge engine/checker lists
+            for _fld in ("engines", "checkers", "assumptions", "coq_scan"):
+                PROPS[_k][_fld] = PROPS[_k].get(_fld, []) + [x for x in _v.get(_fld, []) if x not in PROPS[_k].get(_fld, [])]
+        else:
+            PROPS[_k] = _v
 
 
 def classify(engine, kind):
